@@ -100,6 +100,8 @@ class Inliner:
             if any(c.callee and program.resolve_callee(b.crate, c) is b for c in b.calls()):
                 continue    # directly recursive: stays a call
             self.helpers[b.key] = b
+        self.closures = {}          # closures that were expanded at a direct call (`let f = |x| ..; f(a)`): key -> body
+        self._closure_stack = set()
         self.sites = 0
         self.log = []       # (helper key, caller key, file:line of the call)
         self.skipped = []   # (helper key, reason)
@@ -146,7 +148,18 @@ class Inliner:
                 if fn is None:
                     continue
                 h = self._resolve(body.crate, fn)
-                if h is None or h.key == body.key or not allowed(h.key):
+                if h is None:
+                    cb = self._closure_target(body.crate, fn, term)
+                    if cb is not None and cb.key != body.key and cb.key not in self._closure_stack:
+                        # the closure's own helper / closure calls first, then the closure into its caller
+                        self._closure_stack.add(cb.key)
+                        self._expand(cb, allowed)
+                        self._closure_stack.discard(cb.key)
+                        self.closures[cb.key] = cb
+                        self._splice(body, bi, cb, closure=True)
+                        changed = True
+                    continue
+                if h.key == body.key or not allowed(h.key):
                     continue
                 if len(term["args"]) != h.raw["arg_count"]:
                     self.skipped.append((h.key, "argument count differs at a call in " + body.key))
@@ -164,8 +177,30 @@ class Inliner:
                 return h
         return None
 
+    def _closure_target(self, crate, fn, term):
+        """`f(a, b)` on a local closure: `<{closure} as Fn<(A, B)>>::call(&f, (a, b))`, resolved to the closure's body.  The
+        environment is an explicit argument, so the body can be spliced like a helper: parameter 1 is the reference to the
+        closure value, the others are the fields of the argument tuple"""
+        if fn.get("name") not in ("call", "call_mut", "call_once"):
+            return None
+        res = fn.get("resolved") or ""
+        if "{closure#" not in res:
+            return None
+        cb = self.p.bodies.get(crate + "::" + res) or self.p.bodies.get(res)
+        if cb is None or cb.def_kind != "Closure" or len(cb.blocks) > MAX_HELPER_BLOCKS or len(term["args"]) != 2:
+            return None
+        tys = term.get("argtys") or []
+        locs = cb.raw["locals"]
+        if not tys or len(locs) < 2 or tys[0] != locs[1].get("ty"):
+            return None         # called through a by-value / by-reference shim: the body's environment has another type
+        a1 = term["args"][1]
+        n = cb.raw["arg_count"] - 1
+        if n and not (isinstance(a1, dict) and a1.get("k") in ("copy", "move")):
+            return None
+        return cb
+
     # ------------------------------------------------------------------ splice
-    def _splice(self, body, bi, h):
+    def _splice(self, body, bi, h, closure=False):
         C = body.raw
         H = h.raw
         call = C["blocks"][bi]["term"]
@@ -216,7 +251,17 @@ class Inliner:
             elif t["k"] == "resume" and unwind is not None:
                 b["term"] = {"k": "goto", "t": unwind}
         entry = []
-        for i, a in enumerate(call["args"]):
+        if closure:
+            entry.append({"k": "assign", "pl": {"l": loff + 1, "p": []}, "rv": {"k": "use", "op": call["args"][0]},
+                          "pty": (call.get("argtys") or [""])[0], "sp": sp, "inlined_arg": True})
+            tup = call["args"][1]
+            for i in range(H["arg_count"] - 1):
+                ty = H["locals"][2 + i].get("ty", "")
+                op = {"k": "copy", "pl": {"l": tup["pl"]["l"], "p": list(copy.deepcopy(tup["pl"]["p"])) + [
+                    {"k": "field", "i": i, "n": str(i), "ty": ty}]}}
+                entry.append({"k": "assign", "pl": {"l": loff + 2 + i, "p": []}, "rv": {"k": "use", "op": op},
+                              "pty": ty, "sp": sp, "inlined_arg": True})
+        for i, a in enumerate(call["args"] if not closure else ()):
             entry.append({"k": "assign", "pl": {"l": loff + 1 + i, "p": []}, "rv": {"k": "use", "op": a},
                           "pty": (call.get("argtys") or [""] * (i + 1))[i], "sp": sp, "inlined_arg": True})
         C["blocks"][bi]["stmts"].extend(entry)
@@ -409,11 +454,15 @@ def normalise(program, verif):
     program.inline_skipped = inl.skipped
     program.new_functions = sorted(inl.helpers)
     program.helper_bodies = dict(inl.helpers)
+    program.inlined_closures = sorted(inl.closures)
     program.expanded = {}
     if not inl.log:
         return
     # a helper every use of which was expanded is analysed through its callers only
     remaining = set()
+    closure_ty = {}
+    for ck, cb in inl.closures.items():
+        closure_ty[cb.raw["locals"][1].get("ty", "").lstrip("&").replace("mut ", "")] = ck
 
     def scan(o, crate):
         if isinstance(o, list):
@@ -425,6 +474,12 @@ def normalise(program, verif):
                 h = inl._resolve(crate, fn)
                 if h is not None:
                     remaining.add(h.key)
+            if o.get("k") == "call" and closure_ty:
+                # a closure that is also handed to someone else (or still called somewhere) stays a body of its own
+                txt = " ".join(o.get("argtys") or []) + " " + ((o.get("func") or {}).get("ty") or "")
+                for ty, ck in closure_ty.items():
+                    if ty and ty in txt:
+                        remaining.add(ck)
             for k, v in o.items():
                 if k in ("sp", "fsp", "fn", "span", "exp"):
                     continue
@@ -432,7 +487,7 @@ def normalise(program, verif):
                     scan(v, crate)
 
     for b in program.lib_bodies():
-        if b.key in inl.helpers:
+        if b.key in inl.helpers or b.key in inl.closures:
             continue
         scan(b.raw["blocks"], b.crate)
     callers = {}
@@ -465,7 +520,7 @@ def normalise(program, verif):
                 roots.add(cb.root or cb.path)
         program.expanded[hk] = sorted(roots)
     for hk in gone:
-        hb = inl.helpers[hk]
+        hb = inl.helpers.get(hk) or inl.closures[hk]
         roots = program.expanded[hk]
         for b in list(program.lib_bodies(hb.crate)):
             if b.path.startswith(hb.path + "::{closure#") and roots:
